@@ -239,6 +239,11 @@ fn leaves() -> Vec<(String, tir::Expression)> {
         ("Struct".into(), E::Struct(tir::StructExpr { constructor: 200, fields: vec![E::Number(1)] })),
         ("Map".into(), E::Map(vec![(E::Number(1), E::Number(2))])),
     ];
+    // text long enough for any message that quotes only its beginning, with wide characters at every alignment
+    for pad in 0..4usize {
+        v.push((format!("String(wide, pad {pad})"), E::String(format!("{}{}", "x".repeat(pad), "é".repeat(80)))));
+        v.push((format!("String(emoji, pad {pad})"), E::String(format!("{}{}", "x".repeat(pad), "😀".repeat(40)))));
+    }
     for n in [0i128, 1, 2, -1, 3, 4, 255, 256, 257, 259, 1 << 32, 1 << 63, 1 << 64, i128::MAX, i128::MIN] {
         v.push((format!("Number({n})"), E::Number(n)));
     }
@@ -526,7 +531,29 @@ impl Prop for C14 {
                     (directive_tx(dname, keys, key, leaf), format!("{dname}.{key}"))
                 };
                 drive(&tx, &ArgMap::new(), &all_stores[0].1, &all_pp[0].1, &mut o, &json!({"leaf": name, "at": at}), "ir-level");
-                o.key(hash64(&(&at, name)));
+                o.key(hash64(&(&at, &name)));
+                // the leaf as an operand of every operation, beside an operand of another kind (operations that cannot
+                // be carried out describe their operands in the error they return)
+                if case["kind"] == "leaves" && at == "outputs[0].datum" {
+                    use tir::BuiltInOp as B;
+                    use tir::Expression as E;
+                    let (_, l) = leaves().into_iter().find(|(n, _)| *n == name).expect("leaf");
+                    let placement = case["placement"].as_u64().unwrap_or(0) as usize;
+                    for (op, e) in [
+                        ("concat(leaf, bool)", B::Concat(l.clone(), E::Bool(true))),
+                        ("concat(bool, leaf)", B::Concat(E::Bool(true), l.clone())),
+                        ("concat(leaf, bytes)", B::Concat(l.clone(), E::Bytes(vec![1]))),
+                        ("add(leaf, 1)", B::Add(l.clone(), E::Number(1))),
+                        ("sub(1, leaf)", B::Sub(E::Number(1), l.clone())),
+                        ("negate(leaf)", B::Negate(l.clone())),
+                        ("property(leaf, 0)", B::Property(l.clone(), E::Number(0))),
+                        ("property(list, leaf)", B::Property(E::List(vec![E::Number(1)]), l.clone())),
+                    ] {
+                        let tx = tirgen::place(placement, tirb::builtin(e));
+                        drive(&tx, &ArgMap::new(), &all_stores[0].1, &all_pp[0].1, &mut o, &json!({"leaf": name, "operation": op}), "ir-level");
+                        o.key(hash64(&("op", op, &name)));
+                    }
+                }
             }
             return o;
         }
